@@ -8,6 +8,7 @@ import (
 
 	"verifharness/drv/c03"
 	"verifharness/drv/c05"
+	"verifharness/drv/c06"
 	"verifharness/drv/c11"
 	"verifharness/drv/c14"
 	"verifharness/drv/c15"
@@ -21,6 +22,7 @@ import (
 var cmds = map[string]func([]string) error{
 	"c03": c03.Main,
 	"c05": c05.Main,
+	"c06": c06.Main,
 	"c11": c11.Main,
 	"c14": c14.Main,
 	"c15": c15.Main,
